@@ -7,3 +7,28 @@ claim("C01", "SSA provenance + who-may-write/who-may-call rules over the resolve
       "seqNo; Checkpoint.Save dumps Checkpoint.SeqNo from the tracked offset under the tracked key; backends write the document they are given under its "
       "vBucket's id; offsets are never mutated after construction. Per-document provenance makes the crash-point quantifier vacuous. NOT decided: consumer "
       "discipline in calling Ack, server-side handling of the write, durability.", "DESIGN.md §3 C01")
+
+claim("C02", "SSA mapping tables (writer/reader composition), guard sets by dominance, order-abstraction evaluation",
+      "Decides the tables behind 'resume exactly where the checkpoint says': the stream request's arguments keyed by gocbcore's parameter names; the Save "
+      "(offset->document) and Load (document->offset) tables extracted from the code and composed to the identity on vbUUID/seqNo/snapshot start/end; every "
+      "tracked entry dumped; loaded documents never modified in place; same document type, distinct JSON tags, same xattr path and id expressions on both sides; "
+      "file backend reads the file/map type it writes; the 'latest' branch selected by exactly !exist && AutoReset==latest and filled from the vBucket high "
+      "seqNo and failover entry 0; requested end = InitializeLatestSeqNo (parameter iff finite else 2^64-1, exhaustive); read-only wrapper performs no call in "
+      "Save/Clear and is installed under exactly Metadata.ReadOnly. NOT decided: sonic's/server's 64-bit fidelity (trusted), custom Metadata implementations.",
+      "DESIGN.md §3 C02")
+
+claim("C04", "exhaustive finite order-abstraction evaluation of guards over SSA + who-may-write",
+      "Decides guard exactness for ALL integer inputs by evaluating the position writer and VbIDRange.In once per weak ordering of the compared values x boolean "
+      "atoms (comparison-only control is enforced, so the case split is exhaustive): Store <=> inRange && (!found || new >= cur), TrackOffset(vbID, offset) "
+      "immediately after every Store and never otherwise, no effect when out of range; In <=> Start <= vbID <= End; Open derives the range from the first/last "
+      "assigned vBucket; every map operation of the writer is keyed by its vbID parameter; no other writer exists. NOT decided: concurrent acknowledgements of the "
+      "same vBucket (excluded by the property), memory-model visibility of plain flags.", "DESIGN.md §3 C04")
+
+claim("C05", "order-abstraction evaluation of the dirty protocol, dominance/path rules, error-flow taint, narrow lockset",
+      "Decides the dirty-tracking protocol: every dirtying settle raises the save flag; the dirty mark is written iff the position moved with dirty=true and is "
+      "idempotently true (StoreIf condition closure evaluated exhaustively); Save attempts the write iff the flag is up and under no other condition, with a full "
+      "copy of the dirty set; the dirty set is cleared only under err==nil of that write; every backend propagates each storage primitive's error, writes iff "
+      "dirty[vbID] under the Checkpoint.Timeout context; Stream.Save precedes Stream.Close in the shutdown path when checkpointing is automatic; the write is "
+      "serialised by a blocking Lock + deferred Unlock; mark and clear share a mutex (violated today: known finding K1, listed in KNOWN_FINDINGS.txt by "
+      "obligation key). Two genuine defects found by R1/R5 were repaired in /repo (fix: commits). NOT decided: that a save is eventually scheduled, server "
+      "behaviour under timeout.", "DESIGN.md §3 C05, §4")
